@@ -430,6 +430,16 @@ class _Emitter(object):
             self.pop()
             if not bare:
                 self.w("}")
+        elif k == "bgrp":
+            # a plain brace group {..} (no declaration): a group node in the tree, the words stay words
+            self.features.add("plain-brace-group")
+            self.w("{")
+            self.push()
+            self.owner.append("bgroup")
+            self.inlines(n["c"])
+            self.owner.pop()
+            self.pop()
+            self.w("}")
         elif k == "mbox":
             self.features.add("mbox")
             self.w("\\mbox{")
@@ -945,8 +955,8 @@ def render(doc):
 # ----------------------------------------------------------------------
 # AST utilities
 # ----------------------------------------------------------------------
-INLINE_KINDS = ("w", "cmd", "decl", "mbox", "footnote", "math", "verb", "label", "ref", "cite")
-_INLINE_CONTAINERS = ("cmd", "decl", "mbox", "footnote")
+INLINE_KINDS = ("w", "cmd", "decl", "bgrp", "mbox", "footnote", "math", "verb", "label", "ref", "cite")
+_INLINE_CONTAINERS = ("cmd", "decl", "bgrp", "mbox", "footnote")
 
 
 def _walk_inlines(items, fn):
@@ -1065,6 +1075,18 @@ def documents(features=ALL_FEATURES, exclude=(), max_items=14, classes=("article
         return out
 
     @st.composite
+    def optional_inlines(draw):
+        """Content of an optional argument ([toc] title, \\item[term]); a quarter are macro-free text
+        with a plain brace group (\\item[{w} w], the idiom for brackets in labels)."""
+        if draw(st.integers(0, 3)) == 0:
+            grp = {"k": "bgrp", "c": [draw(word()) for _ in range(draw(st.integers(1, 2)))]}
+            out = [grp]
+            if draw(st.booleans()):
+                out.insert(draw(st.integers(0, 1)), draw(word()))
+            return out
+        return draw(inlines(1, True, False, 1))
+
+    @st.composite
     def title_inlines(draw):
         """A sectioning title; one in five is a single node: an unbraced declaration that absorbs
         the whole title (\\section{\\itshape a ``b'' -- c})."""
@@ -1166,7 +1188,7 @@ def documents(features=ALL_FEATURES, exclude=(), max_items=14, classes=("article
                 term = None
                 if kind == "description" or (kind == "enumerate" and "enum-optional-label" not in X
                                              and draw(st.integers(0, 7)) == 0):
-                    term = draw(inlines(1, True, False, 1))
+                    term = draw(optional_inlines())
                 if rest and kind == "enumerate" and "labels" in F and draw(st.integers(0, 2)) == 0:
                     rest.append({"k": "par", "c": [{"k": "w", "q": None}, {"k": "label", "n": "?"}], "sep": 1})
                 items.append({"term": term, "c": [first] + rest})
@@ -1222,7 +1244,7 @@ def documents(features=ALL_FEATURES, exclude=(), max_items=14, classes=("article
                 body.append(draw(st.one_of(par(), block(depth + 1, thmnames, infloat=name))))
             for i in range(ncap):
                 cap = {"k": "caption", "float": name,
-                       "toc": draw(inlines(1, True, False, 1)) if draw(st.integers(0, 4)) == 0 else None,
+                       "toc": draw(optional_inlines()) if draw(st.integers(0, 4)) == 0 else None,
                        "c": draw(inlines(1, True, True, 2)), "sep": draw(st.integers(0, 1))}
                 pos = draw(st.integers(0, len(body)))
                 body.insert(pos, cap)
@@ -1301,7 +1323,7 @@ def documents(features=ALL_FEATURES, exclude=(), max_items=14, classes=("article
                 if lv == "chapter" and not star:
                     have_chapter = True
                 body.append({"k": "sec", "lv": lv, "star": star,
-                             "toc": draw(inlines(1, True, False, 1)) if draw(st.integers(0, 4)) == 0 else None,
+                             "toc": draw(optional_inlines()) if draw(st.integers(0, 4)) == 0 else None,
                              "title": draw(title_inlines()), "sep": draw(st.integers(0, 1))})
             elif "counters" in F and r == 4 and ctrnames:
                 c = draw(st.sampled_from(ctrnames))
